@@ -178,6 +178,8 @@ def gen_transfer(rng, cfg, types, nsubs=1, reenter=False, maxsize=40,
     elif ty == 'copy':
         if rng.random() < provide_prob:
             provide = size
+        if rng.random() < 0.15:
+            spec['versioned'] = True    # CopySource names a non-current version
     else:
         spec['size'] = 0
     spec['subs'] = gen_subs(rng, nsubs, reenter, provide=provide)
@@ -539,6 +541,16 @@ def gen_C02(rng):
         sc['faults'] += gen_fatal_fault(rng, i, sc['transfers'][i], sc['config'])
         _dedupe_stream(sc)
     dls = [i for i, t in enumerate(sc['transfers']) if t['type'] == 'download']
+    pdl = [i for i in dls if sc['transfers'][i].get('dst') == 'path']
+    if pdl and not sc.get('driver') and not sc['faults'] and rng.random() < 0.08:
+        # the same object downloaded to the same path by two transfers that are
+        # in flight together (each works in a temporary file of its own)
+        i = rng.choice(pdl)
+        twin = dict(sc['transfers'][i])
+        twin['subs'] = [{}]
+        twin.update({'twin_of': i, 'key_override': 'o%d' % i, 'path_override': '/d/down%d' % i})
+        sc['transfers'].append(twin)
+        return sc
     if dls and not sc.get('driver') and not sc['faults'] and rng.random() < 0.12:
         # the object is replaced (other size) and downloaded again through the
         # same manager: the destination holds what the object is NOW
@@ -600,7 +612,7 @@ def _dedupe_stream(sc):
 def _mass_hold(rng, n):
     """[state, victim, scheduling points to skip] for a held mass cancel: the
     controller's loop takes its own lock first and then each coordinator's."""
-    return [rng.choice(['inflight', 'inflight', 'running', 'done']),
+    return [rng.choice(['inflight', 'inflight', 'part', 'part', 'running', 'done']),
             rng.randrange(n), rng.randint(0, 2 * n + 1)]
 
 
@@ -622,7 +634,7 @@ def add_cancel_script(rng, sc, how=None, allow_ctrlc=True):
         victim = rng.randrange(k)
         act = ['cancel', victim, atomic]
         if not atomic and rng.random() < 0.6:
-            act.append(rng.choice(['inflight', 'inflight', 'running', 'done']))
+            act.append(rng.choice(['inflight', 'inflight', 'part', 'part', 'running', 'done']))
             act.append(rng.choice([0, 0, 0, 1, 2]))     # scheduling points to skip first
             if rng.random() < 0.5:
                 step = rng.randint(0, 12)      # cancel early: often still not started
@@ -689,6 +701,13 @@ def gen_C04(rng):
     _dedupe_stream(sc)
     if rng.random() < 0.5:
         add_cancel_script(rng, sc)
+    if rng.random() < 0.06:
+        # a call the manager rejects (unsupported bucket) somewhere between the
+        # submissions: it must leave nothing behind that shutdown waits for
+        script = sc.get('driver') or plain_script(n)
+        k = rng.randint(0, max(0, len(script) - 1))
+        sc['driver'] = script[:k] + [['bad_call', rng.choice(['upload', 'download', 'copy',
+                                                              'delete'])]] + script[k:]
     return sc
 
 
@@ -723,6 +742,27 @@ def gen_C05(rng):
         sc['faults'] += gen_fatal_fault(rng, i, sc['transfers'][i], cfg)
     elif r < 0.9:
         add_cancel_script(rng, sc, allow_ctrlc=True)
+    else:
+        # a cancel that lands exactly while a part request is in flight, with
+        # the submission thread lagging behind the request threads (it has
+        # handed the part over and not yet done its own bookkeeping)
+        sc['knobs']['latency'] = rng.choice(['random', 'slow_first', 'slow_last'])
+        sc['knobs']['stalls'] = []
+        est = est_steps(sc['transfers'], cfg)
+        sc['strategy'] = ['starve', 'submission', rng.choice([0.3, 0.7])] \
+            if rng.random() < 0.6 else ['hold', 'submission', rng.randint(0, est), 300, 0.7]
+        victim = rng.randrange(n)
+        vt = sc['transfers'][victim]
+        if vt['type'] == 'upload' and vt.get('src') in ('seekable', 'nonseekable') \
+                and rng.random() < 0.6:
+            # ... and the submission then fails on its own: the caller closes
+            # the stream it has just cancelled the upload of (a later read of
+            # the source raises)
+            sc['faults'].append({'site': 'src', 't': victim, 'nth': rng.randint(1, 4),
+                                 'exc': rng.choice(['value', 'oserror'])})
+        sc['driver'] = [['submit', i] for i in range(n)] + \
+            [['cancel', victim, False, 'part', rng.choice([0, 0, 1])]] + \
+            [['result', i] for i in range(n)] + [['shutdown']]
     return sc
 
 
@@ -759,8 +799,10 @@ def gen_C07(rng):
         sites = s3_sites(i, t, sc['config'])
         site = sites[-1] if rng.random() < 0.7 else rng.choice(sites)
         if t['type'] == 'download' and t.get('dst') == 'path' and rng.random() < 0.5:
-            sc['faults'].append({'site': 'fs', 'op': 'rename', 'dest': '/d/down%d' % i,
-                                 'exc': 'oserror'})
+            # (a failing close of the temporary file: in a cancelled download it
+            # is the first of two cleanups - the second must still remove the file)
+            sc['faults'].append({'site': 'fs', 'op': rng.choice(['rename', 'rename', 'close']),
+                                 'dest': '/d/down%d' % i, 'exc': 'oserror'})
         else:
             f = {'site': 's3', 'when': rng.choice(['before', 'after']),
                  'exc': rng.choice(FATAL_EXC + (['conn', 'readtimeout']
